@@ -90,3 +90,31 @@ fn c06_resync_junk() {
         _ => { assert!(false); }
     }
 }
+
+/// dlt_storage_header with junk in front of the pattern (the leaf contract sto_header_post for
+/// shift > 0): the header is parsed from the first pattern occurrence, the shift is reported,
+/// the rest starts 16 bytes after it. 2 junk bytes (any values that do not create an earlier
+/// occurrence), real memchr scalar search.
+#[kani::proof]
+#[kani::stub(alloc::fmt::format, super::util::fmt_stub)]
+#[kani::stub(std::arch::x86_64::__cpuid_count, cpuid_count_stub)]
+#[kani::stub(std::arch::x86_64::__cpuid, cpuid_stub)]
+#[kani::stub(memchr::arch::x86_64::sse2::packedpair::Finder::is_available, no_simd)]
+#[kani::unwind(24)]
+fn c06_sto_header_shift2() {
+    let j: [u8; 2] = kani::any();
+    let t: [u8; 8] = kani::any();
+    let tail: [u8; 1] = kani::any();
+    let buf: [u8; 19] = [j[0], j[1], b'D', b'L', b'T', 1, t[0], t[1], t[2], t[3], t[4], t[5], t[6], t[7], b'E', b'C', b'U', 0, tail[0]];
+    kani::assume(ref_find_pattern(&buf) == Some(2));
+    match crate::parse::dlt_storage_header(&buf) {
+        Ok((rest, Some((sh, shift)))) => {
+            assert!(shift == 2);
+            assert!(rest.len() == 1 && rest[0] == tail[0]);
+            assert!(sh.timestamp.seconds == u32::from_le_bytes([t[0], t[1], t[2], t[3]]));
+            assert!(sh.timestamp.microseconds == u32::from_le_bytes([t[4], t[5], t[6], t[7]]));
+            assert!(bytes_eq(sh.ecu_id.as_bytes(), b"ECU"));
+        }
+        _ => { assert!(false); }
+    }
+}
